@@ -35,6 +35,8 @@ structure GoodRes (n : Nat) (r : Res) : Prop where
   len_pos : r.err = .ok → 1 ≤ r.len
   pcrel : r.pcrel ≠ 0 → (r.pcrel = 1 ∨ r.pcrel = 2 ∨ r.pcrel = 4) ∧ 1 ≤ r.pcreloff ∧ r.pcreloff + r.pcrel ≤ r.len
   opc : r.err = .ok → r.pcrel ≠ 0 → r.opcode ≠ 0
+  /-- the prefix-only pseudo instruction (`instPrefix`: err = nil, Op = 0) is recognisable: Len = 1, no PC-relative field, Opcode = 0 -/
+  op0 : r.err = .ok → r.op = 0 → r.len = 1 ∧ r.pcrel = 0 ∧ r.opcode = 0
 
 theorem good_instPrefix (src : Bytes) (h : 0 < src.length) : GoodRes src.length (instPrefix src) := by
   unfold instPrefix
@@ -926,7 +928,11 @@ theorem finish_good {n : Nat} (src : Bytes) (hn : n = src.length) (P : Pfx) (s :
   · refine q_ite (fun h => ?_) (fun _ => ?_)
     · rw [hn]; exact good_instPrefix src (hp h)
     · exact good_err n s.pos .unrec (Or.inr rfl) hb.pos_le
-  · exact ⟨by simp, by simp, hb.pos_le, fun _ => hb.pos_pos hop, hb.pc.pcrel, fun _ => hb.pc.pcrel_nz⟩
+  · refine ⟨by simp, by simp, hb.pos_le, fun _ => hb.pos_pos hop, hb.pc.pcrel, fun _ => hb.pc.pcrel_nz, fun _ h0 => absurd h0 ?_⟩
+    dsimp only
+    have hnop : opNOP ≠ 0 := by decide
+    have hpause : opPAUSE ≠ 0 := by decide
+    repeat' (first | exact hop | exact hnop | exact hpause | refine q_ite (Q := fun v => v ≠ 0) (fun _ => ?_) (fun _ => ?_))
 
 theorem run_good {n : Nat} (src : Bytes) (hn : n = src.length) (P : Pfx) (hp : P.nprefix > 0 → 0 < src.length) :
     ∀ (fuel pc : Nat) (s : St) (c : Cert), cert? pc = some c → c.rank < fuel → Inv n c s → GoodRes n (run src P fuel pc s) := by
